@@ -48,7 +48,7 @@ func init() {
 		Title: "No request can crash the service",
 		Explanation: "Decides, from the type-checked SSA of /repo, nine classes of request-triggered crashes in module code behind the RPC handlers (D1-D4, D7 and D8 on the handler paths, D5 in the exported helpers of pkg/cryptoutil, D6 at every module call of a length-checking library function and D9 at every variable index into a fixed-size array, where only protobuf message fields (request messages included), arguments of the exported helpers and whole-stream reads count as untrusted). Handlers are the methods of the module types implementing protocoltypes.ProtocolServiceServer and outofstoremessagetypes.OutOfStoreMessageServiceServer; besides the handlers, the entry points are the callbacks orbit-db invokes while a handler is served and which the module call graph cannot see (functions with the signature of iface.StoreConstructor: called when a handler opens the stores of a group; methods of module types implementing iface.StoreIndex: called when a handler appends to or reads a store), each listed in the notes; reachable code is the closure over static calls, interface calls resolved to module implementations, closures, function values taken in reachable code and functions stored in package-level variables that reachable code reads. " +
 			"(D1) every panic statement and every call of a process-terminating library function (os.Exit, log.Fatal*/Panic*, zap Fatal/Panic) in reachable code is one obligation; it is a violation when a branch condition that decides whether it executes derives by value flow from a handler's request parameter (operands to results, call arguments to results and to the parameters of module callees, stored values and out-parameters to local cells; contexts excluded), or when it is unconditional up to a handler. The panics go/ssa synthesises for select dispatch are not source panics and are skipped. " +
-			"(D2) the pointer fields of a handler receiver type that a reachable function sets to nil are nullable (today: the account group context, cleared on deactivation). Every dereference of a value read from such a field, or returned by a function that may return it (accessor summaries), must be dominated by the non-nil side of a nil test of that same value; a test of another read of the field, or an assignment of a non-nil value to it, counts only while a lock of the owning struct is held from there to the use. " +
+			"(D2) the pointer fields of a handler receiver type that a reachable function sets to nil are nullable (today: the account group context, cleared on deactivation). Every dereference of a value read from such a field, or returned by a function that may return it (accessor summaries), must be dominated by the non-nil side of a nil test of that same value; a test of another read of the field, or an assignment of a non-nil value to it, counts only while a lock of the owning struct is held from there to the use. Obligations are per handler: all such reads in the handler's own code (the functions it runs through static calls, closures and the functions, method expressions and closures it passes on; a call through a func-typed parameter is resolved to what the static callers pass) are judged together and reported under the handler, so a defect in a shared helper is reported for every handler that uses it and extracting a helper does not change the count; reads only reached through interface dispatch keep one obligation per function. " +
 			"(D3) pointer-to-message fields of a handler's request parameter are nullable (proto3 leaves them nil when absent): a field access, or passing the value to a module function whose summary says it dereferences that parameter on a path without a nil test (generated getters come out nil-safe from their bodies), must be dominated by a nil test of the value or of another read of the same request field. " +
 			"(D4) a module function with a return that carries nil (or a nullable value) together with a nil error is a nullable source for all its callers; a function that returns nil with a non-nil error is a nullable source at the points not dominated by the nil side of a test of that call's error (helpers that hand back the error they were given are seen through). Correlated results are honoured (the comma-ok idiom of module functions): when every nil-without-error return of the callee carries the same constant in one of its bool results and every other success return carries the opposite constant, a use dominated by the side of a test of that result, of that very call, on which it has the opposite value is guarded; wrappers that pass the value on only on that side therefore do not become nullable sources themselves, and a function that returns the value together with that very flag of the same call (return f()) inherits the correlation, merged with its own constant returns. Return statements the compiler merged into one return of phis are read per predecessor, and a named result that no store can reach on the way to a bare return counts as its zero value.One obligation per (caller, callee) pair in reachable code. The same engine is also run on the module's remaining non-test functions (the exported API no handler reaches, e.g. WeshOrbitDB.OpenGroupReplication); what it finds there is outside the property and is only written to the notes, prefixed \"outside the property's scope:\". " +
 			"(D5) in the exported functions of pkg/cryptoutil, every slice expression with a bound, index expression or slice-to-array conversion on a byte slice needs its length established. With constant bounds (r[:32], x[3], conversion to [N]byte) the length facts of D6 are used: len >= bound must follow from a dominating comparison of len of that slice with a constant (so a weakened test such as len > 0 is reported), from a slice of an array or a make, or from the slice being the result of a module function all of whose non-nil returns have that fact, at a call site where its error was tested nil. With bounds computed at run time (data[:n]) the operation must be control-dependent on a comparison involving len of that same slice; whether that comparison is the right one is not decided. " +
@@ -59,9 +59,8 @@ func init() {
 			"Not decided: panics inside dependencies (orbit-db, libp2p, protobuf, grpc) and in callbacks of dependencies other than the two kinds listed above (libp2p stream handlers, event-bus subscribers, access-controller constructors); index, conversion, type-assertion, nil-map-write and division panics not rooted in the sources above; nil values that travel through maps, channels, struct literals or captured variables; whether the length comparison of D5 is the right one (only its presence and position); an error variable that lives in a captured cell and is tested after a merge; data races other than the lock condition of D2; resource exhaustion and dead-locks. The absence of a recovery interceptor is noted, not required.",
 		Trusted:     []string{"golang.org/x/tools go/packages+go/ssa (v0.29.0)", "go/types", "gRPC hands a non-nil request message to every handler", "generated protobuf getters are nil-safe (verified from their bodies by the same summaries)"},
 		Assumptions: []string{"dependencies behave as documented; only module code is analysed", "handlers are only entered through the generated server interfaces"},
-		// D1: the handler census and the trace-id fallback; D2: the 18 handler/helper uses of the
-		// account-group accessor, the accessor itself, the three verified-credential handlers and
-		// the activation function; D3: the two request sub-messages that are passed on; D4: the
+		// D1: the handler census and the trace-id fallback; D2: the 22 handlers whose own code (static
+		// calls, closures, function values passed on) reads the account group, one obligation each; D3: the two request sub-messages that are passed on; D4: the
 		// call sites of module functions that return nil on failure (232 today, enumerated
 		// mechanically: the floor only guards against the summaries finding nothing); D5: the two
 		// exported helpers that cut a byte slice; D6: the 14 call sites of length-checking library
@@ -71,7 +70,7 @@ func init() {
 		// without comma-ok in reachable code (7 decided, 11 on values produced by dependencies); these two floors are set below today's
 		// counts because removing a close or rewriting an assertion in the two-value form is a
 		// harmless change that lowers them.
-		Floors: map[string]int{"D1": 2, "D2": 23, "D3": 2, "D4": 100, "D5": 2, "D6": 14, "D7": 8, "D8": 12, "D9": 1},
+		Floors: map[string]int{"D1": 2, "D2": 22, "D3": 2, "D4": 100, "D5": 2, "D6": 14, "D7": 8, "D8": 12, "D9": 1},
 		Borrows: []Borrow{
 			{From: "C13", Rules: []string{"D4"}, Why: "the since/until identifiers of GroupMetadataList / GroupMessageList come from the request; the range selection is evaluated there for every position of both identifiers, and an index outside the entry slice (off-by-one at either end) is a run-time panic in the handler's goroutine"},
 			{From: "C16", Rules: []string{"D9"}, Why: "releasing a mutex that is not held is a fatal runtime error that no interceptor can recover: a second Unlock on the path a handler takes when its client gives up (stream cancelled) takes the process down"},
@@ -693,7 +692,91 @@ func (n *c19Nil) calleesOf(cc *ssa.CallCommon) []*ssa.Function {
 			out = append(out, f)
 		}
 	}
+	// call through a func-typed parameter: the functions, method expressions and closures that
+	// the static callers of the enclosing function pass in that position
+	if par, ok := cc.Value.(*ssa.Parameter); ok && !cc.IsInvoke() && len(out) == 0 {
+		fn := par.Parent()
+		idx := -1
+		for i, p := range fn.Params {
+			if p == par {
+				idx = i
+			}
+		}
+		seen := map[*ssa.Function]bool{}
+		for _, cs := range n.w.callGraph().callers[fn] {
+			ccs := cs.Instr.Common()
+			if staticCallee(ccs) == nil || idx < 0 || idx >= len(ccs.Args) {
+				continue
+			}
+			var f *ssa.Function
+			switch a := ccs.Args[idx].(type) {
+			case *ssa.Function:
+				f = a
+			case *ssa.MakeClosure:
+				f, _ = a.Fn.(*ssa.Function)
+			case *ssa.ChangeType:
+				switch b := a.X.(type) {
+				case *ssa.Function:
+					f = b
+				case *ssa.MakeClosure:
+					f, _ = b.Fn.(*ssa.Function)
+				}
+			}
+			if f != nil && f.Blocks != nil && !seen[f] {
+				seen[f] = true
+				out = append(out, f)
+			}
+		}
+	}
 	return out
+}
+
+// staticClosure: the functions a handler runs through static calls, closures and function
+// values it passes on (no interface dispatch): the code that is the handler's own.
+func (n *c19Nil) staticClosure(h *ssa.Function) map[*ssa.Function]bool {
+	seen := map[*ssa.Function]bool{}
+	var q []*ssa.Function
+	push := func(f *ssa.Function) {
+		if f == nil {
+			return
+		}
+		if o := f.Origin(); o != nil && o.Blocks != nil && f.Blocks == nil {
+			f = o
+		}
+		if f.Blocks == nil || seen[f] {
+			return
+		}
+		if _, ok := n.reach[f]; !ok {
+			return
+		}
+		seen[f] = true
+		q = append(q, f)
+	}
+	push(h)
+	for len(q) > 0 {
+		f := q[0]
+		q = q[1:]
+		for _, a := range f.AnonFuncs {
+			push(a)
+		}
+		for _, b := range f.Blocks {
+			for _, in := range b.Instrs {
+				if ci, ok := in.(ssa.CallInstruction); ok {
+					push(staticCallee(ci.Common()))
+				}
+				var ops [12]*ssa.Value
+				for _, op := range in.Operands(ops[:0]) {
+					if op == nil || *op == nil {
+						continue
+					}
+					if fv, ok := (*op).(*ssa.Function); ok {
+						push(fv)
+					}
+				}
+			}
+		}
+	}
+	return seen
 }
 
 func (n *c19Nil) resultOrigin(call *ssa.Call, idx int, v ssa.Value, at c19At) *c19Origin {
@@ -1851,6 +1934,37 @@ func runC19(c *Ctx) {
 			a.bad = append(a.bad, msg+" [source: "+s.Origin.Desc+"]")
 		}
 	}
+	// D2 per handler: the nullable-field sources in the handler's own code (static calls,
+	// closures, function values passed on) are judged together, so that moving the accessor and
+	// its nil test into a shared helper changes neither the number of obligations nor who is
+	// reported. Sources only reached through interface dispatch keep a per-function obligation.
+	coveredD2 := map[srcKey]bool{}
+	for _, h := range hs {
+		cl := n.staticClosure(h.Fn)
+		var items []srcKey
+		for _, k := range order {
+			if k.class == "field" && cl[k.fn] {
+				items = append(items, k)
+			}
+		}
+		if len(items) == 0 {
+			continue
+		}
+		var bad, where []string
+		reads := 0
+		for _, k := range items {
+			coveredD2[k] = true
+			reads += srcs[k].n
+			bad = append(bad, srcs[k].bad...)
+			where = append(where, fnName(k.fn))
+		}
+		construct := fnName(h.Fn) + "+account group"
+		if len(bad) == 0 {
+			c.ok("D2", construct, h.Fn.Pos(), "%d read(s) of a nullable account-group source in the handler's own code (%s); every dereference is dominated by a nil test (or the value is only returned/compared)", reads, strings.Join(c19Dedup(where), ", "))
+		} else {
+			c.fail("D2", construct, h.Fn.Pos(), "the handler dereferences the account group, which is nil after its deactivation, without a nil test: %s; the request then panics instead of returning an error", strings.Join(c19Dedup(bad), "; "))
+		}
+	}
 	nOnErr := 0
 	for _, k := range order {
 		a := srcs[k]
@@ -1858,6 +1972,9 @@ func runC19(c *Ctx) {
 		construct := fnName(k.fn) + "+" + k.label
 		switch k.class {
 		case "field":
+			if coveredD2[k] {
+				continue
+			}
 			if len(a.bad) == 0 {
 				c.ok("D2", construct, a.pos, "nullable account-group source %s read %d time(s); every dereference is dominated by a nil test (or the value is only returned/compared)", k.label, a.n)
 			} else {
